@@ -157,7 +157,7 @@ CHECKS = {
     "C08": (
         "model_checking",
         "scenario lattice x EVERY file boundary as crash/restart point: uninterrupted split run vs each warm-started run, compared record by record by decoded absolute time",
-        "For every scenario (scheme, discrete/continuous release, deaths by IBM age limit / leaving the grid / both, scalar forcing, numrec 1-3, duration multiple "
+        "For every scenario (scheme, forward or time-reversed run, discrete/continuous release, deaths by IBM age limit / leaving the grid / both, scalar forcing, numrec 1-3, duration multiple "
         "or not of the period, particle variables on/off) and every completed file of the split run: the run warm-started from that file reproduces every later "
         "record (pids, positions, age, forcing-derived temp, tags, particle variables, newly released particles, file names). One genuine defect is listed as a known finding.",
         "Restart configured as documented; float64 output; the extra warm-run record at exactly stop is not compared.",
